@@ -38,7 +38,7 @@ def run(ctx) -> None:
         fresh[s] = o["steps"][0]["res"]
     tasks = [{"ids": h + [p, p]} for h in hists for p in probes]
     # every source once more, alone, in another fresh interpreter with another hash seed (repeatability across processes)
-    tasks += [{"ids": [s], "hashseed": 7001 + 13 * ctx.seed + j} for j, s in enumerate(sources)]
+    tasks += [{"ids": [s], "hashseed": 7001 + 13 * ctx.seed + j + 1000 * rep} for rep in range(3) for j, s in enumerate(sources)]
     outs = pool.map("session_history", tasks, timeout=120, batch=4)
     recs = []
     for k, (t, o) in enumerate(zip(tasks, outs)):
